@@ -277,9 +277,50 @@ type twArm struct {
 func typeWriterArms(w *genWalker, tw *ast.FuncDecl, sw *ast.SwitchStmt) []twArm {
 	info := w.info
 	var arms []twArm
-	for _, st := range tw.Body.List {
+	// guard clauses: `if t.Kind == K [|| t.Kind == K2] { ... }` is the arm of K; after `if t.Kind != K { return }` the
+	// rest of the function is the arm of K
+	kindEq := func(e ast.Expr, op token.Token) []ast.Expr {
+		var out []ast.Expr
+		var walk func(e ast.Expr) bool
+		walk = func(e ast.Expr) bool {
+			be, ok := e.(*ast.BinaryExpr)
+			if !ok {
+				return false
+			}
+			if be.Op == token.LOR && op == token.EQL {
+				return walk(be.X) && walk(be.Y)
+			}
+			if be.Op != op {
+				return false
+			}
+			if se, ok := be.X.(*ast.SelectorExpr); ok && se.Sel.Name == "Kind" {
+				out = append(out, be.Y)
+				return true
+			}
+			return false
+		}
+		if !walk(e) {
+			return nil
+		}
+		return out
+	}
+	for i, st := range tw.Body.List {
 		ifs, ok := st.(*ast.IfStmt)
-		if !ok || ifs.Init == nil {
+		if !ok {
+			continue
+		}
+		if ifs.Init == nil && ifs.Else == nil {
+			if ks := kindEq(ifs.Cond, token.EQL); len(ks) > 0 {
+				arms = append(arms, twArm{kinds: kindsOfExprs(info, ks), body: ifs.Body.List, pos: ifs.Pos()})
+			} else if ks := kindEq(ifs.Cond, token.NEQ); len(ks) == 1 && len(ifs.Body.List) == 1 {
+				if ret, isRet := ifs.Body.List[0].(*ast.ReturnStmt); isRet && len(ret.Results) == 0 {
+					arms = append(arms, twArm{kinds: kindsOfExprs(info, ks), body: tw.Body.List[i+1:], pos: ifs.Pos()})
+					break
+				}
+			}
+			continue
+		}
+		if ifs.Init == nil {
 			continue
 		}
 		as, ok := ifs.Init.(*ast.AssignStmt)
@@ -544,6 +585,44 @@ func typeWriter(p *Prog, w *genWalker) (*ast.FuncDecl, types.Object, *ast.Switch
 					return fd, flag, sw
 				}
 			}
+		}
+	}
+	// a type writer written without a switch on the kind: lookup tables and guard clauses (`if t.Kind == K { ...; return }`):
+	// the function with a *idl.Type and a bool parameter that inspects the kind and calls itself for the element types
+	for _, fd := range w.decls() {
+		if fd.Type.Params == nil || fd.Body == nil {
+			continue
+		}
+		var flag types.Object
+		hasType := false
+		for _, fld := range fd.Type.Params.List {
+			t := info.TypeOf(fld.Type)
+			if pt, ok := t.(*types.Pointer); ok && isNamed(pt.Elem(), pkgIDL, "Type") {
+				hasType = true
+			}
+			if b, ok := t.Underlying().(*types.Basic); ok && b.Kind() == types.Bool && len(fld.Names) == 1 {
+				flag = info.Defs[fld.Names[0]]
+			}
+		}
+		if !hasType || flag == nil {
+			continue
+		}
+		kind, self := false, false
+		ast.Inspect(fd.Body, func(n ast.Node) bool {
+			switch x := n.(type) {
+			case *ast.SelectorExpr:
+				if x.Sel.Name == "Kind" {
+					kind = true
+				}
+			case *ast.CallExpr:
+				if id, ok := x.Fun.(*ast.Ident); ok && info.Uses[id] == info.Defs[fd.Name] {
+					self = true
+				}
+			}
+			return true
+		})
+		if kind && self && len(typeWriterArms(w, fd, nil)) >= 3 {
+			return fd, flag, nil
 		}
 	}
 	return nil, nil, nil
